@@ -1,0 +1,17 @@
+//go:build verif
+
+package cipher
+
+// Exports for the external verification harness (property C09, second file). Add-only; compiled only with -tags verif.
+
+// VerifC09BlockCipherFromKey builds a stateless or implicit-nonce cipher directly from a 32-byte key, with the
+// given user name in its block context.
+func VerifC09BlockCipherFromKey(key []byte, implicitNonce bool, user string) (BlockCipher, error) {
+	c, err := newXChaCha20Poly1305BlockCipher(key)
+	if err != nil {
+		return nil, err
+	}
+	c.enableImplicitNonce = implicitNonce
+	c.ctx = BlockContext{UserName: user}
+	return c, nil
+}
